@@ -1086,6 +1086,12 @@ class LinearOperator(object):
 
         # and MM^T = A^{-1}
         current_inv_root = self.root_inv_decomposition(method=root_inv_decomp_method).root.mT
+        if not (isinstance(current_root, TriangularLinearOperator) and isinstance(current_inv_root, TriangularLinearOperator)):
+            # the update below needs M^T = L^{-1}. The two roots may come from unrelated factorizations (a cached
+            # Lanczos root and a Cholesky inverse root, or two Lanczos runs); L^{-1} = L^T A^{-1} = L^T M M^T
+            current_inv_root = to_linear_operator(
+                to_dense(current_root).mT @ (to_dense(current_inv_root).mT @ to_dense(current_inv_root))
+            )
 
         # compute p = M B and take its SVD
         pvector = current_inv_root.matmul(low_rank_mat)
@@ -1262,7 +1268,12 @@ class LinearOperator(object):
         # Get components for new root Z = [E 0; F G]
         E = self.root_decomposition(**root_decomp_kwargs).root  # E = L, LL^T = A
         m, n = E.shape[-2:]
-        R = self.root_inv_decomposition().root.to_dense()  # RR^T = A^{-1} (this is fast if L is triangular)
+        inv_root = self.root_inv_decomposition().root
+        R = inv_root.to_dense()  # RR^T = A^{-1} (this is fast if L is triangular)
+        if not (isinstance(E, TriangularLinearOperator) and isinstance(inv_root, TriangularLinearOperator)):
+            # F = BR below needs R = E^{-T}. The two roots may come from unrelated factorizations (a cached Lanczos
+            # root and a Cholesky inverse root, or two Lanczos runs); E^{-T} = A^{-1} E = R R^T E
+            R = R @ (R.mT @ E.to_dense())
         lower_left = B_ @ R  # F = BR
         schur = D - lower_left.matmul(lower_left.mT)  # GG^T = new_mat - FF^T
         schur_root = to_linear_operator(schur).root_decomposition().root  # G = (new_mat - FF^T)^{1/2}
